@@ -24,10 +24,11 @@ MAX_SITES = 12     # a new function called from more places than this is left al
 
 class _Map:
     """local renaming of an inlined body: callee local l -> l + base, except the return place when the call's destination is a
-    plain local (the inlined body then writes the destination directly, as the caller's own code would)"""
+    plain local (the inlined body then writes the destination directly, as the caller's own code would).  `deref` maps a callee
+    parameter that the caller passes as `&mut x` / `&x` of one of its own places to that place: `(*param).f` becomes `x.f`."""
 
-    def __init__(self, base, ret=None):
-        self.base, self.ret = base, ret
+    def __init__(self, base, ret=None, deref=None):
+        self.base, self.ret, self.deref = base, ret, deref or {}
 
     def __call__(self, l):
         if l == 0 and self.ret is not None:
@@ -40,7 +41,12 @@ def _m(base, l):
 
 
 def _ren_place(p, base):
-    return [_m(base, p[0]), [({'i': _m(base, e['i'])} if isinstance(e, dict) and 'i' in e else e) for e in p[1]]]
+    proj = [({'i': _m(base, e['i'])} if isinstance(e, dict) and 'i' in e else e) for e in p[1]]
+    d = getattr(base, 'deref', None)
+    if d and p[0] in d and proj and proj[0] == '*':
+        x, projx = d[p[0]]
+        return [x, list(projx) + proj[1:]]
+    return [_m(base, p[0]), proj]
 
 
 def _ren_operand(o, base):
@@ -151,6 +157,28 @@ def _has_loop(g):
     return dfs(0)
 
 
+def _ref_target(f, l):
+    """the caller's place a local reference `l` points to when `l` has one definition `&[mut] place` (reborrows followed), else None"""
+    def single_ref(x):
+        ds = [st for bb in f['blocks'] if not bb['c'] for st in bb['s'] if st['k'] == 'a' and st['d'] == [x, []]]
+        if len(ds) == 1 and ds[0]['r']['k'] == 'ref' and not any(isinstance(e, dict) and 'i' in e for e in ds[0]['r']['p'][1]):
+            return ds[0]['r']['p']
+        if len(ds) == 1 and ds[0]['r']['k'] == 'use' and isinstance(ds[0]['r']['o'], dict):
+            pp = ds[0]['r']['o'].get('m') or ds[0]['r']['o'].get('c')
+            if pp and not pp[1]:
+                return single_ref(pp[0])
+        return None
+    pl = single_ref(l)
+    hops = 0
+    while pl is not None and pl[1] and pl[1][0] == '*' and hops < 3:
+        inner = single_ref(pl[0])
+        if inner is None:
+            break
+        pl = [inner[0], list(inner[1]) + list(pl[1][1:])]
+        hops += 1
+    return pl
+
+
 def _is_thin_sync(g, known, parents):
     """a NEW (unknown to the rules) plain function that can be inlined: any shape but recursion (loops and nested closures are
     fine: the closures stay separate bodies and are re-parented to the caller when the function disappears)"""
@@ -195,7 +223,31 @@ def _inline_sync(f, bi, g):
                         f['locals'][k] = copy.deepcopy(conc)
     dest, target = t['d'], t['t']
     direct = not dest[1]
-    lm = _Map(base, dest[0] if direct else None)
+    # a parameter passed as a fresh reference to a place of the caller (`&mut counter`): the inlined body works on the place
+    deref = {}
+    for i, a in enumerate(t['args']):
+        src = a.get('m', a.get('c')) if isinstance(a, dict) else None
+        if src is None or src[1]:
+            continue
+        def single_ref(l):
+            ds = [st for bb in f['blocks'] if not bb['c'] for st in bb['s'] if st['k'] == 'a' and st['d'] == [l, []]]
+            if len(ds) == 1 and ds[0]['r']['k'] == 'ref' and not any(isinstance(e, dict) and 'i' in e for e in ds[0]['r']['p'][1]):
+                return ds[0]['r']['p']
+            if len(ds) == 1 and ds[0]['r']['k'] == 'use' and isinstance(ds[0]['r']['o'], dict) and (ds[0]['r']['o'].get('m') or ds[0]['r']['o'].get('c')) and not (ds[0]['r']['o'].get('m') or ds[0]['r']['o'].get('c'))[1]:
+                return single_ref((ds[0]['r']['o'].get('m') or ds[0]['r']['o'].get('c'))[0])
+            return None
+        pl = single_ref(src[0])
+        hops = 0
+        # a reborrow `&mut *tmp` of `tmp = &mut x`
+        while pl is not None and pl[1] and pl[1][0] == '*' and hops < 3:
+            inner = single_ref(pl[0])
+            if inner is None:
+                break
+            pl = [inner[0], list(inner[1]) + list(pl[1][1:])]
+            hops += 1
+        if pl is not None and not (pl[1] and pl[1][0] == '*' and f['locals'][pl[0]]['s'].startswith('&') is False):
+            deref[1 + i] = (pl[0], pl[1])
+    lm = _Map(base, dest[0] if direct else None, deref)
     for gb in g['blocks']:
         nbk = {'c': gb['c'], 's': [_ren_stmt(s, lm) for s in gb['s'] if not (direct and s['k'] in ('sl', 'sd') and s['v'] == 0)],
                't': _ren_term(gb['t'], lm, nb), 'inl': g['id']}
@@ -440,6 +492,16 @@ def _inline_async_body(f, bi, stub, body):
                 if f['locals'][kk].get('h') == 'param' and f['locals'][kk].get('s') == pname:
                     f['locals'][kk] = copy.deepcopy(conc)
 
+    # an upvar that is a fresh reference to a place of the caller (`&mut counter`): `*(upvar)` is that place
+    up_deref = {}
+    for i, u in enumerate(up):
+        a = t['args'][u[0] - 1]
+        src = a.get('m', a.get('c')) if isinstance(a, dict) else None
+        if src is not None and not src[1]:
+            pl = _ref_target(f, src[0])
+            if pl is not None:
+                up_deref[i] = pl
+
     def mp(p):
         l, proj = p
         proj2 = [({'i': e['i'] + base} if isinstance(e, dict) and 'i' in e else e) for e in proj]
@@ -448,6 +510,9 @@ def _inline_async_body(f, bi, stub, body):
             while pr and pr[0] == '*':
                 pr = pr[1:]
             if pr and isinstance(pr[0], dict) and 'f' in pr[0] and pr[0]['f'] < len(upl):
+                if pr[0]['f'] in up_deref and len(pr) > 1 and pr[1] == '*':
+                    x, projx = up_deref[pr[0]['f']]
+                    return [x, list(projx) + pr[2:]]
                 return [upl[pr[0]['f']], pr[1:]]
             raise ValueError('coroutine state used as a whole')
         return [l + base, proj2]
